@@ -36,7 +36,7 @@ def ghost_conn(c):
     g["tx_calls"] = c.fresh("int", "tx_calls")  # number of transport send() calls made
     g["rx_calls"] = c.fresh("int", "rx_calls")  # number of transport recv() calls made
     g["closed_handles"] = c.fresh("int", "closed_handles")  # transports closed so far
-    c.assume(z3.And(z(g["rpos"]) >= 0, z(g["rpos"]) <= slen(z(g["rx"])), z(g["draws"]) >= 0, z(g["tx_calls"]) >= 0,
+    c.assume(z3.And(z(g["rpos"]) >= 0, z(g["rpos"]) <= slen(z(g["rx"])), slen(z(g["rx"])) < 2 ** 63, z(g["draws"]) >= 0, z(g["tx_calls"]) >= 0,
                     z(g["rx_calls"]) >= 0, z(g["closed_handles"]) >= 0))
 
 
